@@ -2,7 +2,7 @@
    which the reference semantics (RunCase.run_ref) produces a trace, the faithful net model
    (NetRun.run_net, with its fuel as a parameter) produces the same trace.  Proof file. *)
 From PFDL Require Import NetModel NetRun RunCase.
-From PFDL.Refine Require Import Eval Layout GenSpec Abs Sim.
+From PFDL.Refine Require Import Eval Layout GenSpec Abs SrcKeys Sim.
 From Coq Require Import Lia.
 
 (* NetRun.run_net with the evaluation fuel as a parameter *)
@@ -42,20 +42,45 @@ Definition uses_imm (c : runcase) : bool := negb (forallb negb (rc_imm c)).
    statements, Conditions (non-empty Passed block, with or without a Failed block) and While
    loops (non-empty bodies), arbitrarily nested, within the generator's recursion budget; and
    sequential counting loops (non-empty bodies, any limit) at any depth of Conditions / While
-   loops / counting loops / task calls (every task instance has its own loop counters),
-   provided that no parameter list of the program mentions a loop index
-   ([Abs.sok]: with [NC] = "the program has no counting loop" nothing is required of the
-   parameters).  Not in the fragment: loop indices in parameters of programs with counting
-   loops, parallel loops *)
+   loops / counting loops / task calls (every task instance has its own loop counters);
+   parameter lists may mention the loop indices (the net substitutes the current counters at
+   every start inside a loop, the reference semantics its index environment).  Not in the
+   fragment: parallel loops *)
 Definition in_fragment (c : runcase) : bool :=
   rc_test_ids c
   && forallb (fun o => match o with None => true | Some _ => false end) (rc_react c)
   && Nat.eqb (rc_mutate c) 0
   && forallb (ok_call (uses_imm c)) (rc_script c)
   && match unfold_program (p_tasks (rc_prog c)) 200 with
-     | Ok body => frag_block body && Nat.ltb (need_l body) 200 && sok_block (no_count body) true body
+     | Ok body => frag_block body && Nat.ltb (need_l body) 200
      | _ => false
      end.
+
+(* Abs.sok holds of every program, with NC = "the program has no counting loop" *)
+Lemma sok_any : forall NC s, (has_count s = true -> NC = false) -> sok NC true s = true.
+Proof.
+  intros NC. induction s as [n a i|t a i body IH|bs IH|e p f IHp IHf|e b IH|v l b IH|v l c IH] using xstmt_ind'; intro H; cbn [sok].
+  - reflexivity.
+  - cbn [andb]. apply forallb_forall. intros x Hx. rewrite Forall_forall in IH. apply (IH x Hx).
+    intro Hc. apply H. cbn [has_count]. apply existsb_exists. exists x. split; assumption.
+  - apply forallb_forall. intros x Hx. rewrite Forall_forall in IH. apply (IH x Hx).
+    intro Hc. apply H. cbn [has_count]. apply existsb_exists. exists x. split; assumption.
+  - apply andb_true_intro. split; apply forallb_forall; intros x Hx.
+    + rewrite Forall_forall in IHp. apply (IHp x Hx). intro Hc. apply H. cbn [has_count]. apply orb_true_intro. left.
+      apply existsb_exists. exists x. split; assumption.
+    + rewrite Forall_forall in IHf. apply (IHf x Hx). intro Hc. apply H. cbn [has_count]. apply orb_true_intro. right.
+      apply existsb_exists. exists x. split; assumption.
+  - apply forallb_forall. intros x Hx. rewrite Forall_forall in IH. apply (IH x Hx).
+    intro Hc. apply H. cbn [has_count]. apply existsb_exists. exists x. split; assumption.
+  - pose proof (H eq_refl) as HN. subst NC. cbn [negb andb]. apply forallb_forall. intros x Hx. rewrite Forall_forall in IH. apply (IH x Hx).
+    intros _. reflexivity.
+  - reflexivity.
+Qed.
+Lemma sok_block_any : forall body, sok_block (no_count body) true body = true.
+Proof.
+  intro body. unfold sok_block. apply forallb_forall. intros x Hx. apply sok_any. intro Hc.
+  unfold no_count. apply negb_false_iff. apply existsb_exists. exists x. split; assumption.
+Qed.
 
 Lemma nth_all_none : forall (l : list (option nat)) k,
     forallb (fun o => match o with None => true | Some _ => false end) l = true -> nth k l None = None.
@@ -80,6 +105,16 @@ Proof.
   cbn [existsb]. rewrite (IH H2). destruct x; [discriminate H1|reflexivity].
 Qed.
 
+(* Scheduler(...) on a program whose unfolding lies in the fragment builds the net of Layout.v;
+   the counting variables are those of the program (SrcKeys) *)
+Theorem net_of_program : forall tasks fu body,
+    unfold_program tasks fu = Ok body -> frag_block body = true -> need_l body < 200 ->
+    exists N, net_init tasks true = Ok N /\ NetOf (LV := loop_var tasks) body N.
+Proof.
+  intros tasks fu body Hu Hf Hn. apply (net_init_spec (LV := loop_var tasks) tasks fu body Hu Hf Hn).
+  apply (unfold_program_keys tasks fu body Hu). destruct body; [discriminate Hf|exact Hf].
+Qed.
+
 Theorem net_refines_ref_fragment :
   forall c, in_fragment c = true ->
   forall tr, run_ref c = Ok tr ->
@@ -89,9 +124,11 @@ Proof.
   repeat (apply andb_prop in Hin; destruct Hin as [Hin ?]).
   rename H into Hprog, H0 into Hscript, H1 into Hmut, H2 into Hreact.
   destruct (unfold_program (p_tasks (rc_prog c)) 200) as [body| | |] eqn:Hu; try discriminate Hprog.
-  apply andb_prop in Hprog. destruct Hprog as [Hprog Hsok]. apply andb_prop in Hprog. destruct Hprog as [Hfrag Hneed]. apply Nat.ltb_lt in Hneed.
+  apply andb_prop in Hprog. destruct Hprog as [Hfrag Hneed]. apply Nat.ltb_lt in Hneed. pose proof (sok_block_any body) as Hsok.
   unfold run_ref in Href. rewrite (no_react_existsb _ Hreact), Hu in Href. cbn [rbind] in Href.
-  destruct (net_init_spec (p_tasks (rc_prog c)) 200 body Hu Hfrag Hneed) as (N & Hinit & HN).
+  assert (Hkeys : keys_block (LV := loop_var (p_tasks (rc_prog c))) production_task [] body 0).
+  { apply (unfold_program_keys (p_tasks (rc_prog c)) 200 body Hu). destruct body; [discriminate Hfrag|exact Hfrag]. }
+  destruct (net_init_spec (LV := loop_var (p_tasks (rc_prog c))) (p_tasks (rc_prog c)) 200 body Hu Hfrag Hneed Hkeys) as (N & Hinit & HN).
   assert (Henv : env_quiet (env_of c)).
   { split.
     - intro k. unfold env_of, ec_react. apply nth_all_none. exact Hreact.
@@ -101,6 +138,6 @@ Proof.
   destruct (script_sim (no_count body) (p_tasks (rc_prog c)) (env_of c) Henv (orc_of (rc_vals c)) (imm_of (rc_imm c))
                        (fun k => eq_refl) (uses_imm c) Himm' eq_refl
                        body N HN Hfrag Hsok default_fuel (rc_script c) sched0 N tr Hscript
-                       (Rel_init (no_count body) (uses_imm c) body N HN Hfrag) Href) as [f0 Hf0].
+                       (Rel_init (no_count body) (p_tasks (rc_prog c)) (uses_imm c) body N HN Hfrag) Href) as [f0 Hf0].
   exists f0. intros f Hf. unfold run_net_f. rewrite Hin, Hinit. cbn [rbind]. apply Hf0. exact Hf.
 Qed.
